@@ -1,0 +1,33 @@
+//go:build verif
+
+// Copyright 2026 The Scriggo Authors. All rights reserved.
+// Use of this source code is governed by a BSD-style
+// license that can be found in the LICENSE file.
+
+package runtime
+
+import "bytes"
+
+// Verification hooks for property C08 (values shown as JavaScript or JSON
+// are valid literals for the same data). Compiled only with the "verif"
+// build tag. Add-only: every function calls the real, unexported function.
+
+// VerifC08Show calls showInJS (js true) or showInJSON (js false) on value
+// with a fresh environment, as renderer.Show does for the contexts JS and
+// JSON, and returns what has been written and the returned error.
+func VerifC08Show(js bool, value any) (string, error) {
+	env := &env{typeof: typeOfFunc}
+	var out bytes.Buffer
+	var err error
+	if js {
+		err = showInJS(env, &out, value)
+	} else {
+		err = showInJSON(env, &out, value)
+	}
+	return out.String(), err
+}
+
+// VerifC08ParseTagValue calls parseTagValue.
+func VerifC08ParseTagValue(tag string) (name string, omitempty bool) {
+	return parseTagValue(tag)
+}
